@@ -1,5 +1,5 @@
 (* C16 / order.py: nematic Q tensor, extreme-eigenvalue characterisations, inertia tensor, atom groups. *)
-From Coq Require Import String List Arith ZArith QArith Qabs Bool Lia Lqa.
+From Coq Require Import String List Arith ZArith QArith Qabs Bool Lia Lqa Morphisms.
 Import ListNotations.
 Require Import MD.Gen.DescTables MD.Gen.DescFormulas MD.Desc.AlgebraModel MD.Desc.AlgebraProofs MD.Desc.OrderModel.
 Local Open Scope Q_scope.
@@ -90,6 +90,79 @@ Theorem eigvec_residual_zero s v l :
   dot3 v (sym_apply s v) / dot3 v v == l.
 Proof.
   intros E0 E1 E2 Hv. unfold dot3 at 1. rewrite E0, E1, E2. unfold dot3 in *. field. exact Hv.
+Qed.
+
+(* ------------------------------------------------------------------ reduced-fraction evaluation = plain evaluation *)
+Global Instance qpos_proper : Proper (Qeq ==> Qeq) qpos.
+Proof.
+  intros x y E. unfold qpos. rewrite (Qleb_comp x y E 0 0 (Qeq_refl 0)).
+  destruct (Qle_bool y 0); [reflexivity|exact E].
+Qed.
+
+Ltac unred := unfold radd, rsub, rmul, rdiv; rewrite ?Qred_correct.
+
+Lemma tr3_r_eq s : tr3_r s == tr3 s.
+Proof. destruct s as [[[[[xx yy] zz] xy] xz] yz]. unfold tr3_r, tr3. unred. reflexivity. Qed.
+Lemma e2_3_r_eq s : e2_3_r s == e2_3 s.
+Proof. destruct s as [[[[[xx yy] zz] xy] xz] yz]. unfold e2_3_r, e2_3. unred. ring. Qed.
+Lemma det3_r_eq s : det3_r s == det3 s.
+Proof. destruct s as [[[[[xx yy] zz] xy] xz] yz]. unfold det3_r, det3. unred. ring. Qed.
+Lemma charpoly_r_eq s x : charpoly_r s x == charpoly s x.
+Proof. unfold charpoly_r, charpoly. unred. rewrite tr3_r_eq, e2_3_r_eq, det3_r_eq. ring. Qed.
+Lemma charpoly'_r_eq s x : charpoly'_r s x == charpoly' s x.
+Proof. unfold charpoly'_r, charpoly'. unred. rewrite tr3_r_eq, e2_3_r_eq. ring. Qed.
+Lemma dot3_r_eq u v : dot3_r u v == dot3 u v.
+Proof. unfold dot3_r, dot3. unred. reflexivity. Qed.
+
+Lemma sym_apply_r_eq s v :
+  vx (sym_apply_r s v) == vx (sym_apply s v) /\ vy (sym_apply_r s v) == vy (sym_apply s v) /\
+  vz (sym_apply_r s v) == vz (sym_apply s v).
+Proof.
+  destruct s as [[[[[xx yy] zz] xy] xz] yz]. unfold sym_apply_r, sym_apply, vx, vy, vz. cbn [fst snd].
+  unred. repeat split; reflexivity.
+Qed.
+
+Lemma dot3_proper_components (a b c a' b' c' x y z x' y' z' : Q) :
+  a == a' -> b == b' -> c == c' -> x == x' -> y == y' -> z == z' ->
+  dot3 (a, b, c) (x, y, z) == dot3 (a', b', c') (x', y', z').
+Proof. intros. unfold dot3, vx, vy, vz. cbn [fst snd]. now rewrite H, H0, H1, H2, H3, H4. Qed.
+
+Theorem s2_residuals_r_eq ds s2 : Forall2 Qeq (s2_residuals_r ds s2) (s2_residuals ds s2).
+Proof.
+  unfold s2_residuals_r, s2_residuals. cbv zeta.
+  repeat constructor.
+  - apply charpoly_r_eq.
+  - now rewrite charpoly'_r_eq.
+  - unred. now rewrite tr3_r_eq.
+Qed.
+
+Theorem eigvec_residuals_r_eq least t s v :
+  Forall2 Qeq (eigvec_residuals_r least t s v) (eigvec_residuals least t s v).
+Proof.
+  unfold eigvec_residuals_r, eigvec_residuals. cbv zeta.
+  destruct (sym_apply_r_eq s v) as (S0 & S1 & S2).
+  destruct v as [[v0 v1] v2].
+  destruct (sym_apply_r s (v0, v1, v2)) as [[r0 r1] r2] eqn:ER.
+  destruct (sym_apply s (v0, v1, v2)) as [[p0 p1] p2] eqn:EP.
+  unfold vx, vy, vz in *. cbn [fst snd] in *.
+  assert (EL : rdiv (dot3_r (v0, v1, v2) (r0, r1, r2)) (dot3_r (v0, v1, v2) (v0, v1, v2)) ==
+               dot3 (v0, v1, v2) (p0, p1, p2) / dot3 (v0, v1, v2) (v0, v1, v2)).
+  { unred. rewrite !dot3_r_eq.
+    rewrite (dot3_proper_components v0 v1 v2 v0 v1 v2 r0 r1 r2 p0 p1 p2) by (assumption || reflexivity).
+    reflexivity. }
+  set (lr := rdiv (dot3_r (v0, v1, v2) (r0, r1, r2)) (dot3_r (v0, v1, v2) (v0, v1, v2))) in *.
+  set (l := dot3 (v0, v1, v2) (p0, p1, p2) / dot3 (v0, v1, v2) (v0, v1, v2)).
+  assert (EL' : lr == l) by exact EL.
+  repeat constructor.
+  - assert (ER0 : rsub r0 (rmul lr v0) == p0 - l * v0) by (unred; rewrite S0, EL'; reflexivity).
+    assert (ER1 : rsub r1 (rmul lr v1) == p1 - l * v1) by (unred; rewrite S1, EL'; reflexivity).
+    assert (ER2 : rsub r2 (rmul lr v2) == p2 - l * v2) by (unred; rewrite S2, EL'; reflexivity).
+    unfold rdiv. rewrite Qred_correct, dot3_r_eq.
+    rewrite (dot3_proper_components _ _ _ _ _ _ _ _ _ _ _ _ ER0 ER1 ER2 ER0 ER1 ER2).
+    unfold rmul. rewrite !Qred_correct, dot3_r_eq. reflexivity.
+  - unred. rewrite dot3_r_eq. reflexivity.
+  - unred. rewrite charpoly'_r_eq. unfold charpoly'. rewrite EL'. reflexivity.
+  - destruct least; unred; rewrite tr3_r_eq, EL'; reflexivity.
 Qed.
 
 (* ------------------------------------------------------------------ inertia tensor *)
